@@ -181,7 +181,7 @@ CLAIMS["C06"] = {
     "technique": "symbolic execution with a reader that can fail at any position (z3); Kani three-way comparison of the reader kernels",
     "text": "E2: in 23 scanner / kernel functions and the 4 builders a failing read (resp. failing callee) ends the "
             "function with that error on every path - never a value, never EOF, never another error. E1: for every "
-            "input of <= 3 bytes the symbol scanner (quick) and the string / character scanners (thorough) give the same "
+            "input of <= 3 bytes the symbol scanner gives the same "
             "result, error category and consumed prefix for byte-slice, stream and (valid UTF-8) str input. E2 scanner "
             "claims: the slice and the stream implementation of the symbol and R6RS string scanners each meet ONE "
             "specification for inputs of any length (terminators, one byte per step, exact range / copied bytes, in-bounds "
